@@ -11,6 +11,9 @@
   C12-d  a buffer of the advertised size suffices (T-AGREE): per (hinted, has_variations) case the bytes carved by
          FreeTypeOutlineMemory::new / HarfBuzzOutlineMemory::new are <= the linear form required_buffer_size() advertises, the
          carving order is non-increasing in alignment and the advertised slack covers the largest alignment
+  C12-f  caller scratch memory is written before it is read (two structural instances): compute_deltas_for_glyph zero-fills
+         the delta buffer before anything accumulates into it; both scalers read memory.composite_deltas only under the
+         flag that is set after the deltas were computed
   C12-e  hinting locations come from LocationRef::effective_coords() (the all-zero location is normalised in one place)
 """
 import re
@@ -348,6 +351,9 @@ def run_config(chk, facts, cfg):
     # ---- C12-d -----------------------------------------------------------------------------------
     check_buffer_agreement(chk, facts)
 
+    # ---- C12-f -----------------------------------------------------------------------------------
+    check_scratch_init(chk, facts)
+
     # ---- C12-e -----------------------------------------------------------------------------------
     chk.rule("C12-e", "T-WHO: raw LocationRef::coords() is read only where confirmed; hinting/drawing configuration goes through "
                       "effective_coords(), which drops an all-zero location")
@@ -525,3 +531,55 @@ def check_buffer_agreement(chk, facts):
                     chk.notes.append(f"C12-d observation: {nm} variations={key[1]} carves alignments {aligns}: worst-case padding {pad} vs slack "
                                      f"{slack_min}; covered only by the advertised-but-unused max_other_points term (value-level, not claimed)")
         chk.floor("C12-d", f"carving cases of {nm}", len(carved), 2)
+
+
+def check_scratch_init(chk, facts):
+    from ..guards import branch_guards
+    chk.rule("C12-f", "T-ORDER/T-GUARD: scratch delta buffers (caller memory, never zeroed by the library's allocator path) are "
+                      "zero-filled before accumulation and read only when they were written for this glyph")
+    cd = chk.anchor("C12-f", "deltas::compute_deltas_for_glyph", facts.body("skrifa::outline::glyf::deltas::compute_deltas_for_glyph"))
+    dparam = [i for i in range(1, cd.argc + 1) if cd.local_name(i) == "deltas"]
+    chk.anchor("C12-f", "`deltas` parameter of compute_deltas_for_glyph", dparam)
+    dp = dparam[0]
+    uses = [(bb, t) for bb, t in cd.calls() if any(op_place(a) is not None and cd.root_local(a) == dp for a in t.args)]
+    fills = [(bb, t) for bb, t in uses if t.callee.endswith("::iter_mut") or t.callee.endswith("::fill")]
+    # the fill loop stores Default::default() through the iterator
+    dflt = [bb for bb, t in cd.calls() if t.callee.endswith("core::default::Default>::default") or t.callee.endswith("::default")]
+    stores = [bb for bb, j, st in cd.stmts() if st[0] == "A" and st[1][1] and st[1][1][0] == "*" and st[1][0] > cd.argc]
+    zero_ok = False
+    if fills:
+        fb = fills[0][0]
+        if fills[0][1].callee.endswith("::fill"):
+            zero_ok = True
+        else:
+            zero_ok = any(fb in cd.dominators().get(d, ()) for d in dflt) and bool(stores)
+        others = [(bb, t) for bb, t in uses if bb != fb]
+        zero_ok = zero_ok and all(cd.dominates(fb, bb) for bb, t in others) and bool(others)
+    chk.ob("C12-f", f"compute_deltas_for_glyph: zero-fill of `deltas` dominates its {len(uses) - 1 if uses else 0} other use(s)", zero_ok,
+           key=f"{cd.path}|zero-fill", file=cd.file, line=cd.lo, fn=cd.path,
+           detail="deltas are accumulated (+=) into caller-provided scratch memory: without the zero-fill the result depends on what the buffer held")
+    for pat in (r"^<skrifa::outline::glyf::FreeTypeScaler<'_> as skrifa::outline::glyf::Scaler>::load_composite$",
+                r"^<skrifa::outline::glyf::HarfBuzzScaler<'_> as skrifa::outline::glyf::Scaler>::load_composite$"):
+        b = chk.anchor("C12-f", pat, facts.one_body(pat, "skrifa"))
+        # the writer: deltas::composite_glyph(.., &mut deltas) ; the flag: bool local assigned true only under its Ok edge
+        wr = [(bb, t) for bb, t in b.calls() if t.callee.endswith("deltas::composite_glyph")]
+        chk.anchor("C12-f", "call to deltas::composite_glyph", wr)
+        trues = {}
+        for bb, j, st in b.stmts():
+            if st[0] == "A" and not st[1][1] and st[2][0] == "use" and st[2][1][0] == "k" and st[2][1][1] == "bool" and st[2][1][2] == "1" and b.local_ty(st[1][0]) == "bool":
+                trues.setdefault(st[1][0], []).append(bb)
+        flags = [l for l, bbs in trues.items() if all(b.dominates(wr[0][0], x) for x in bbs) and b.local_name(l) != f"_{l}"]
+        reads = []
+        for bb, t in b.calls():
+            if (t.callee.endswith("::get") or t.callee.endswith("::index")) and t.args:
+                r = b.root_place(op_place(t.args[0]))
+                if any(isinstance(e, list) and e[0] == "f" and e[2] == "composite_deltas" for e in r[1]):
+                    reads.append((bb, t))
+        for bb, t in reads:
+            guarded = any(b.root_local(b.blocks[g.bb].term.d[1]) in flags and g.taken_val != 0 for g in branch_guards(b, bb))
+            chk.ob("C12-f", f"{b.path.split('::')[-3][-20:]}::load_composite line {t.line}: composite_deltas read only when deltas were computed", guarded,
+                   key=f"{b.path}|composite-deltas-read", file=b.file, line=t.line, fn=b.path,
+                   detail="memory.composite_deltas is read on a path where it was not written for this glyph: with caller-provided scratch "
+                          "memory the outline then depends on the buffer's previous contents")
+        chk.ob("C12-f", f"{b.path.split('>::')[-1]} ({'FreeType' if 'FreeType' in b.path else 'HarfBuzz'}): {len(reads)} read(s) of composite_deltas found", len(reads) >= 1,
+               key=f"{b.path}|reads-found", file=b.file, line=b.lo, fn=b.path)
